@@ -23,7 +23,8 @@ RULE = ("Legacy brace patterns: {pycalver}, {semver}, the documented composites 
         "parse_version_info with every part equal, and re-render identically. B (Hypothesis): `bumpver test OLD P flags --date "
         "D`: the result is greater than OLD in the reference order and, for {pycalver}, as a plain string; chains of 1,000 "
         "bumps. C: a project with a {version} and a {pep440_version} line: `update` announces the same version as `test`, the "
-        "loader reports a legacy pattern, the pep text is PEP 440-equal to the version. Non-trivial: pattern has >= 3 parts.")
+        "loader reports a legacy pattern, the pep text is PEP 440-equal to the version and is found again by a second `update`; "
+        "without --tag the legacy engine itself (before the gate) never returns a lower version. Non-trivial: pattern has >= 3 parts.")
 ASSUME = ["week parts ({iso_week}, {us_week}) are not in the property's list and are not generated",
           "years 2000..2099 (two-digit {yy})", "reference order harness/pep440ref.py"]
 
@@ -194,6 +195,23 @@ def check_b(case):
     cur = old
     flags = dict(case["flags"])
     classes = ["chain" if case["chain"] else "single"]
+    if not flags.get("tag"):
+        # what the legacy engine returns BEFORE the CLI gate: without a tag change nothing can legitimately make the
+        # version smaller (BUILD grows, calendar parts never move backwards), so a lower result is a defect that the
+        # gate merely turns into a refused bump
+        bv_version.TODAY = new_date
+        logging.disable(logging.CRITICAL)
+        try:
+            raw = v1version.incr(old, pattern, major=bool(flags["major"]), minor=bool(flags["minor"]), patch=bool(flags["patch"]),
+                                 pin_date=bool(flags.get("pin_date")), maybe_date=new_date)
+        except OverflowError:
+            raw = None
+        except Exception as ex:
+            return viol("incr-raises", {"exc": type(ex).__name__}, {"pattern": pattern, "old": old, "exc": repr(ex)}, nt=nt)
+        finally:
+            logging.disable(logging.NOTSET)
+        if raw is not None and not pep440ref.key(raw) > pep440ref.key(old):
+            return viol("engine-moves-version-backwards", {}, {"pattern": pattern, "old": old, "date": new_date.isoformat(), "flags": flags, "result": raw}, nt=nt)
     for i in range(steps):
         args, r = run_test(cur, pattern, flags, new_date)
         if r.crashed:
@@ -298,7 +316,12 @@ def check_c(case):
         vN, vT = pep440ref.pep440(N), pep440ref.pep440(T or "")
         if vN is not None and (vT is None or vT != vN):
             return viol("pep440-text-not-equal-to-version", {"pattern": pattern}, dict(detail, announced=N, pep_text=T))
-        return ok(nt=True, classes=("consistent",))
+        # the derived search pattern must accept what was just written: a second update finds it again
+        later = min(new_date + dt.timedelta(days=40), dt.date(2099, 12, 31))
+        r2 = bv.run(["update", "--no-fetch", "--date", later.isoformat()] + (["--patch"] if pattern == "{semver}" else []), cwd=tmp, today=later)
+        if r2.exit != 0 and "No match for pattern" in r2.err:
+            return viol("derived-pattern-rejects-text-bumpver-renders", {"pattern": pattern}, dict(detail, announced=N, pep_text=T, second=r2.summary(500)))
+        return ok(nt=True, classes=("consistent", "second-update-ok" if r2.exit == 0 else "second-update-declined"))
     finally:
         shutil.rmtree(tmp, ignore_errors=True)
 
